@@ -76,7 +76,10 @@ static void put_obj(struct sb *b, hwloc_obj_t o, int indent, char list, unsigned
   for (int i = 0; i < indent; i++) sb_putc(b, ' ');
   sb_printf(b, "%c %s os=%d", list, hwloc_obj_type_string(o->type), (int)o->os_index);
   if (flags & CANON_GP) sb_printf(b, " gp=%" PRIu64, o->gp_index);
-  if (flags & CANON_LEVELS) sb_printf(b, " depth=%d L=%u rank=%u", o->depth, o->logical_index, o->sibling_rank);
+  if (flags & CANON_LEVELS) {
+    if (o->depth >= 0 || (flags & CANON_SPECIAL_ORDER)) sb_printf(b, " depth=%d L=%u rank=%u", o->depth, o->logical_index, o->sibling_rank);
+    else sb_printf(b, " depth=%d rank=%u", o->depth, o->sibling_rank);
+  }
   sb_printf(b, " arity=%u/%u/%u/%u", o->arity, o->memory_arity, o->io_arity, o->misc_arity);
   put_set(b, " cpuset=", o->cpuset); put_set(b, " complete_cpuset=", o->complete_cpuset);
   put_set(b, " nodeset=", o->nodeset); put_set(b, " complete_nodeset=", o->complete_nodeset);
@@ -234,7 +237,7 @@ void canon(struct sb *b, hwloc_topology_t t, unsigned flags)
     for (unsigned k = 0; k < sizeof(SPECIAL_DEPTHS) / sizeof(SPECIAL_DEPTHS[0]); k++) {
       int d = SPECIAL_DEPTHS[k]; unsigned n = hwloc_get_nbobjs_by_depth(t, d);
       sb_printf(b, "level %d n=%u:", d, n);
-      for (unsigned i = 0; i < n; i++) { hwloc_obj_t o = hwloc_get_obj_by_depth(t, d, i); sb_putc(b, ' '); if (o) sb_printf(b, "%s#%d", hwloc_obj_type_string(o->type), (int)o->os_index); else sb_puts(b, "NULL"); }
+      if (flags & CANON_SPECIAL_ORDER) for (unsigned i = 0; i < n; i++) { hwloc_obj_t o = hwloc_get_obj_by_depth(t, d, i); sb_putc(b, ' '); if (o) sb_printf(b, "%s#%d", hwloc_obj_type_string(o->type), (int)o->os_index); else sb_puts(b, "NULL"); }
       sb_putc(b, '\n');
     }
   }
